@@ -134,6 +134,57 @@ def _extract(job):
         cm, _, _ = solver.restriction(vm, sfield, sfield, sc)
         if (cm.eta_y is cm.eta_x) != ay or (cm.eta_z is cm.eta_x) != az:
             bad.append(f"aliasing of coarse eta for case {case}")
+    # ---- floating-point sibling: the same shape and pattern with general
+    # positive widths (random stretching, or nearly regular: ratios 1+eps)
+    # - the transpose identity and the partition of unity hold for ALL
+    # positive widths, to rounding
+    rng = np.random.default_rng(abs(hash((str(h), sc))) % (2**32))
+    for mode in ("random", "nearly-regular"):
+        hf = []
+        for a in h:
+            if mode == "random":
+                hf.append(a*rng.uniform(0.5, 2.0, a.size))
+            else:
+                eps = 10.0**rng.integers(-8, -3)
+                hf.append(a[0]*(1 + eps)**np.arange(a.size))
+        gf = emg3d.TensorMesh(hf, (0, 0, 0))
+        vmf = VM()
+        vmf.case, vmf.grid = 'isotropic', gf
+        one = np.ones(shape)
+        vmf.eta_x = vmf.eta_y = vmf.eta_z = vmf.zeta = one
+        sf = emg3d.Field(gf, frequency=frequency)
+        R = np.zeros((len(ce), len(fe)))
+        cg = None
+        for n in range(len(fe)):
+            res = emg3d.Field(gf, frequency=frequency)
+            res.field[n] = 1.0
+            cm, csf, _ = solver.restriction(vmf, sf, res, sc)
+            cg = cm.grid
+            R[:, n] = csf.field.real
+        P = np.zeros((len(fe), len(ce)))
+        for n in range(len(ce)):
+            cef = emg3d.Field(cg, frequency=frequency)
+            cef.field[n] = 1.0
+            ef = emg3d.Field(gf, frequency=frequency)
+            solver.prolongation(ef, cef, sc)
+            P[:, n] = ef.field.real
+
+        def interior(e, nn):
+            return all(d == e[0]-1 or 1 <= e[d+1] <= nn[d]-1 for d in range(3))
+        fi = np.array([interior(e, shape) for e in fe])
+        ci = np.array([interior(e, cshape) for e in ce])
+        d = np.abs(R[np.ix_(ci, fi)] - P[np.ix_(fi, ci)].T).max() \
+            if ci.any() and fi.any() else 0.0
+        if d > 1e-13:
+            bad.append(f"{mode} widths: max |R - P^T| on interior edges = "
+                       f"{d:.2e}")
+        if fi.any():
+            rs = np.abs(P[fi].sum(axis=1) - 1.0).max()
+            if rs > 1e-13 or P.min() < 0:
+                bad.append(f"{mode} widths: prolongation weights do not sum "
+                           f"to one ({rs:.2e}) or are negative")
+        if np.abs(P[~fi]).max() > 0:
+            bad.append(f"{mode} widths: prolongation writes boundary edges")
     return {"h": [[int(x) for x in a] for a in h], "sc": sc, "ch": ch,
             "prow": prow, "rrow": rrow, "par": par_entries,
             "obs": not bad, "bad": bad, "dtype": dtype}
